@@ -288,6 +288,8 @@ fn run_inner(p: &Params) -> Run {
 
     // --- long flat inputs
     long_inputs(&mut run, p.n(20_000, 100_000));
+    chain_stream(&mut run, false, &[CHAIN_SAFE, 200_000]);
+    chain_stream(&mut run, true, &[CHAIN_SAFE]);
 
     // --- token soups over the SQL vocabulary, random Unicode
     for _ in 0..p.n(450, 20000) {
@@ -386,6 +388,121 @@ fn long_inputs(run: &mut Run, n: usize) {
         }
     }
     run.notes.push(format!("long flat inputs: {} list kinds of {} elements each parsed in a child process on an 8 MiB stack", LONG_KINDS, n));
+}
+
+// ---------------------------------------------------------------------------------------------
+// long FLAT OPERATOR CHAINS (finding D75). `1 + 1 + … + 1`, `x > 0 AND x > 0 AND …`, `- - - … 1`, `NOT NOT … true`,
+// `x::int::int…`, `a[1][1]…` contain no bracket at all, so C14's bound on bracket nesting does not apply to them — but
+// their TREE is as deep as the chain is long (left-deep for the binary operators and the postfix ones, right-deep for
+// the prefix ones), and the real program walks it by recursion on the machine stack: in the lowering of the tree
+// (`parsing::parse`), in the evaluator, and when the tree is dropped. Run in a child process on a thread with the stack
+// of an ordinary main thread (8 MiB; NOT the 512 MiB thread the in-process oracles of this module run on), stage by
+// stage; the child reports each finished stage on its own line, so the parent sees in which stage it died.
+//   * a size comfortably below every threshold (200 terms) must work: parse, execute one row, the documented value;
+//   * far above (200 000 terms) the child is expected to die of stack overflow: class
+//     `D75:long-operator-chain-overflows-stack` EXACTLY when it died by SIGSEGV / SIGABRT with `has overflowed its stack`
+//     on stderr. Any other outcome — a wrong value, a panic, a death below the safe size, a death of a LIST-shaped kind
+//     (`long_inputs` above) — stays an unknown failure.
+// ---------------------------------------------------------------------------------------------
+
+pub const CHAIN_KINDS: usize = 8;
+pub const CHAIN_SAFE: usize = 200;
+const CHAIN_DEFS: &str = "CREATE TABLE t(line = '(-?[0-9]+) (-?[0-9]+)', line[1] => x INT, line[1], line[2] => a INT[]);";
+const CHAIN_LINE: &str = "5 7";
+
+pub fn chain_name(kind: usize) -> &'static str {
+    ["add", "and", "unary-minus", "not", "cast", "subscript", "or", "multiply-compare"][kind % CHAIN_KINDS]
+}
+
+/// the statement of `n` terms / operators, and the record it must print over the line `5 7` (None: an error is the
+/// documented answer — a subscript applied to an INT)
+pub fn long_chain(kind: usize, n: usize) -> (String, Option<String>) {
+    let rep = |item: &str, sep: &str| vec![item; n].join(sep);
+    match kind % CHAIN_KINDS {
+        0 => (format!("SELECT {} AS r FROM t", rep("1", " + ")), Some(format!("r: {}", n))),
+        1 => (format!("SELECT x AS r FROM t WHERE {}", rep("x > 0", " AND ")), Some("r: 5".to_owned())),
+        2 => (format!("SELECT {} 1 AS r FROM t", rep("-", " ")), Some(format!("r: {}", if n % 2 == 0 { 1 } else { -1 }))),
+        3 => (format!("SELECT {} true AS r FROM t", rep("NOT", " ")), Some(format!("r: {}", n % 2 == 0))),
+        4 => (format!("SELECT x{} AS r FROM t", rep("::int", "")), Some("r: 5".to_owned())),
+        5 => (format!("SELECT a{} AS r FROM t", rep("[1]", "")), if n == 1 { Some("r: 5".to_owned()) } else { None }),
+        6 => (format!("SELECT x AS r FROM t WHERE {}", rep("x < 0", " OR ")), Some(String::new())),
+        _ => (format!("SELECT x AS r FROM t WHERE {} = 1", rep("1", " * ")), Some("r: 5".to_owned())),
+    }
+}
+
+/// `harness c14long chain <kind> <n> <parse|exec>`: each finished stage on its own line — `parsed ok|err`, (exec)
+/// `executed <status> <records>`, `dropped` — or the process dies
+pub fn chain_child(kind: usize, n: usize, exec: bool) {
+    let (text, _) = long_chain(kind, n);
+    let h = std::thread::Builder::new().stack_size(8 << 20).spawn(move || {
+        if !exec {
+            let r = sqlgrep::parsing::parse(&text);
+            println!("parsed {}", if r.is_ok() { "ok" } else { "err" });
+            drop(r);
+            println!("dropped");
+            return;
+        }
+        match crate::engine_run::prepare(CHAIN_DEFS, &text) {
+            Err(e) => println!("parsed err {}", e.chars().take(80).collect::<String>().replace('\n', " ")),
+            Ok(p) => {
+                println!("parsed ok");
+                let mut line = CHAIN_LINE.as_bytes().to_vec();
+                line.push(b'\n');
+                let r = crate::engine_run::run_files(&p, &[line]);
+                println!("executed {} {:?}", r.status, r.records());
+                drop(p);
+                println!("dropped");
+            }
+        }
+    }).expect("spawn");
+    if h.join().is_err() { println!("panic"); }
+    crate::runq::cleanup_tmp();
+}
+
+/// the chain stream: `exec = false` is C14's (parse and lowering), `exec = true` is C09's (an accepted statement executed
+/// over one row). Sizes: the safe size, where everything is demanded, and sizes far above it.
+pub fn chain_stream(run: &mut Run, exec: bool, sizes: &[usize]) {
+    use std::os::unix::process::ExitStatusExt;
+    let exe = match std::env::current_exe() { Ok(e) => e, Err(_) => { run.count("chain:no-exe"); return; } };
+    let mode = if exec { "exec" } else { "parse" };
+    for kind in 0..CHAIN_KINDS {
+        for &n in sizes {
+            let out = std::process::Command::new(&exe).args(["c14long", "chain", &kind.to_string(), &n.to_string(), mode]).output();
+            run.oracle_checks += 1;
+            let (sample, _) = long_chain(kind, 3);
+            let (_, expected) = long_chain(kind, n);
+            let desc = format!("{} … ({} terms, no bracket; `harness c14long chain {} {} {}`: {} on an 8 MiB stack)", sample, n, kind, n, mode, if exec { "parse, then execute over the line `5 7`" } else { "parsing::parse" });
+            let o = match out { Ok(o) => o, Err(_) => { run.count("chain:spawn-failed"); continue; } };
+            let stdout = String::from_utf8_lossy(&o.stdout).to_string();
+            let stderr = String::from_utf8_lossy(&o.stderr).to_string();
+            let stages: Vec<&str> = stdout.lines().collect();
+            let last_stage = stages.last().map(|l| l.split(' ').next().unwrap_or("")).unwrap_or("start");
+            let overflowed = matches!(o.status.signal(), Some(libc::SIGSEGV) | Some(libc::SIGABRT)) && stderr.contains("has overflowed its stack");
+            if o.status.success() && stages.last() == Some(&"dropped") {
+                // finished: at every size the answers must be the documented ones
+                run.count(&format!("chain:{}:{}:{}:finished", mode, chain_name(kind), if n <= CHAIN_SAFE { "safe" } else { "long" }));
+                if stages[0] != "parsed ok" {
+                    run.fail(desc, "operator-chain-rejected", format!("a valid statement was not accepted: {:?}", stages[0]));
+                } else if exec {
+                    let said = stages.get(1).copied().unwrap_or("");
+                    let ok = match &expected {
+                        Some(rec) if rec.is_empty() => said == "executed ok []",
+                        Some(rec) => said == format!("executed ok [{:?}]", rec),
+                        None => said.starts_with("executed err:"),
+                    };
+                    if !ok { run.fail(desc, "operator-chain-wrong-answer", format!("the run answered {:?}; documented: {}", said, match &expected { Some(r) if r.is_empty() => "no row".to_owned(), Some(r) => format!("the record {:?}", r), None => "an error (a subscript applied to an INT)".to_owned() })); }
+                }
+            } else if overflowed && n > CHAIN_SAFE {
+                let stage = match last_stage { "start" => "in parsing::parse (lowering)", "parsed" => if exec { "during execution of the first row" } else { "while the statement was dropped" }, "executed" => "while the statement was dropped", _ => "after the last stage" };
+                run.count(&format!("chain:{}:{}:{}:overflow-after-{}", mode, chain_name(kind), n, last_stage));
+                run.fail(desc, "D75:long-operator-chain-overflows-stack", format!("the child died with {:?} {}: stderr {:?}", o.status, stage, stderr.lines().last().unwrap_or("")));
+            } else {
+                run.count(&format!("chain:{}:{}:died-otherwise", mode, chain_name(kind)));
+                run.fail(desc, if n <= CHAIN_SAFE { "operator-chain-of-safe-size-crashes" } else { "operator-chain-crashes-otherwise" }, format!("the child ended with {:?} after stage {:?}; stdout {:?}; stderr ends {:?}", o.status, last_stage, stdout, stderr.lines().last().unwrap_or("")));
+            }
+        }
+    }
+    run.notes.push(format!("operator chains without brackets ({} kinds: + AND unary-minus NOT ::int [1] OR *) of {:?} terms in a child process on an 8 MiB stack through {}: the safe size ({}) must give the documented answer; a death by stack overflow above it is finding D75", CHAIN_KINDS, sizes, if exec { "parse + execution of one row (C09)" } else { "parse and lowering (C14)" }, CHAIN_SAFE));
 }
 
 pub fn run(p: &Params) -> Run {
